@@ -71,6 +71,8 @@ pub struct Env {
     pub elem_align: usize,
     pub violations: Vec<String>,
     pub quarantined_bytes: usize,
+    /// memcheck engine: plain exact-size blocks, freed at once, no guards / fill / quarantine
+    pub passthrough: bool,
     salt_state: u64,
 }
 
@@ -78,7 +80,7 @@ thread_local! {
     static ENV: RefCell<Env> = RefCell::new(Env {
         policy: EnvPolicy { relocate: 0, over_expand: 0, over_exact: 0, realloc_moves: 1, salt: 0 },
         blocks: Vec::new(), c: MemCounters { builds:0, builds_sized:0, expands:0, expands_exact:0, resizes:0, drops:0, cap_changes:0, relocations:0, injected_failures:0, live_blocks:0 },
-        fail_at: 0, elem_size: 0, elem_align: 1, violations: Vec::new(), quarantined_bytes: 0, salt_state: 0,
+        fail_at: 0, elem_size: 0, elem_align: 1, violations: Vec::new(), quarantined_bytes: 0, passthrough: false, salt_state: 0,
     });
 }
 
@@ -102,14 +104,20 @@ pub fn begin_run(policy: EnvPolicy, elem_size: usize, elem_align: usize) {
 
 fn free_all(e: &mut Env) {
     e.quarantined_bytes = 0;
+    let pt = e.passthrough;
     for b in e.blocks.drain(..) {
         if b.state == BlockState::Freed {
             continue;
         }
         unsafe {
-            System.dealloc(b.base as *mut u8, Layout::from_size_align_unchecked(b.total, b.align.max(GUARD)));
+            let a = if pt { b.align.max(1) } else { b.align.max(GUARD) };
+            System.dealloc(b.base as *mut u8, Layout::from_size_align_unchecked(b.total, a));
         }
     }
+}
+
+pub fn set_passthrough(on: bool) {
+    with(|e| e.passthrough = on);
 }
 
 pub fn counters() -> MemCounters {
@@ -136,6 +144,16 @@ pub fn disarm_failure() {
 /// Allocate an instrumented block of `len` data bytes.
 pub fn block_alloc(len: usize, align: usize) -> (usize, usize) {
     with(|e| {
+        if e.passthrough {
+            // exactly `len` uninitialised bytes straight from malloc: memcheck supplies red zones,
+            // definedness and freed-block tracking
+            let base = unsafe { System.alloc(Layout::from_size_align(len.max(1), align.max(1)).unwrap()) };
+            assert!(!base.is_null());
+            let id = e.blocks.len();
+            e.blocks.push(Block { base: base as usize, total: len.max(1), data: base as usize, len, align, state: BlockState::Live });
+            e.c.live_blocks += 1;
+            return (base as usize, id);
+        }
         let a = align.max(GUARD);
         let total = len + 2 * a;
         let base = unsafe { System.alloc(Layout::from_size_align(total, a).unwrap()) };
@@ -173,6 +191,13 @@ pub fn block_release(id: usize) {
             e.violations.push(format!("storage block {} released twice", id));
             return;
         }
+        if e.passthrough {
+            unsafe { System.dealloc(b.base as *mut u8, Layout::from_size_align_unchecked(b.total, b.align.max(1))) };
+            e.blocks[id].state = BlockState::Freed;
+            e.blocks[id].total = 0;
+            e.c.live_blocks -= 1;
+            return;
+        }
         if !guards_ok(&b) {
             e.violations.push(format!("guard zone of storage block {} overwritten (detected at release)", id));
         }
@@ -202,6 +227,9 @@ pub fn block_release(id: usize) {
 /// Guard zones of live blocks intact, quarantined blocks untouched.
 pub fn check() -> Option<String> {
     with(|e| {
+        if e.passthrough {
+            return None;
+        }
         for (id, b) in e.blocks.iter().enumerate() {
             if b.state == BlockState::Freed {
                 continue;
